@@ -114,6 +114,11 @@ extern "C" void h_handle_info()
             vp_assert(reply->type() == QXmppIq::Result && reply->queryType() == QXmppDiscoveryIq::InfoQuery, "C20 the answer is an info result");
             vp_assert(reply->features() == w.caps.features(), "C20 the answer lists the features of capabilities()");
             vp_assert(reply->identities().size() == w.caps.identities().size(), "C20 the answer lists the identities of capabilities()");
+            if (reply->identities().size() == 1 && w.caps.identities().size() == 1) {
+                const auto a = reply->identities().at(0), b = w.caps.identities().at(0);
+                vp_assert(a.category() == b.category() && a.type() == b.type() && a.language() == b.language() && a.name() == b.name(),
+                          "C20 the answer lists the identities of capabilities() (content)");
+            }
 #ifdef C20_REPLY_HASH
             QByteArray vReply = reply->verificationString();
             QByteArray vCaps = w.caps.verificationString();
